@@ -79,13 +79,14 @@ pub fn ls_check(id: &str) -> Option<LsCheck> {
             rule: "lock-step cases with removes, clears, evictions, expiries and in-place get_mut writes; non-trivial = a lookup of a key that was removed/evicted/expired/cleared earlier and written again; distinct by case hash",
             nontrivial: |f| f.lookup_after_rewrite > 0,
             assumptions: &["'had taken effect' is read as: the remove's Delete item / the clear was applied by the processor"],
-            scenarios: vec![],
+            scenarios: vec![(500, sweep_race_scenario)],
         },
         "C03" => LsCheck {
             id: "C03",
             profile: Profile {
                 name: "ttl-visibility",
                 cap: Cap::Mixed,
+                validators: vec![Validator::Always, Validator::Always, Validator::Always, Validator::TagGe, Validator::TagEven],
                 modes: vec![Mode::Quiescent],
                 ttl_pct: 75,
                 buffer_sizes: vec![64],
@@ -114,7 +115,8 @@ pub fn ls_check(id: &str) -> Option<LsCheck> {
             id: "C04",
             profile: Profile {
                 name: "exact-map",
-                cap: Cap::Ample,
+                cap: Cap::Mixed,
+                validators: vec![Validator::Always, Validator::Always, Validator::Always, Validator::TagGe, Validator::TagEven],
                 modes: vec![Mode::Quiescent],
                 ttl_pct: 50,
                 buffer_sizes: vec![64],
@@ -128,7 +130,7 @@ pub fn ls_check(id: &str) -> Option<LsCheck> {
             },
             quick: 24_000,
             thorough: 400_000,
-            rule: "quiescent lock-step cases with max_cost 2^40 and a 64-slot buffer (never full); every key of the domain is looked up at the end; non-trivial = TTL<->no-TTL re-insert followed by a tick, or a TTL key re-used after clear(), or an update of a key that shares its expiry second with another key; distinct by case hash",
+            rule: "quiescent lock-step cases with a 64-slot buffer (never full), max_cost 2^40 in a third of the cases and a tight max_cost in the rest (what the model admits with room must then stay; once the combined cost has exceeded max_cost the premise is gone and admissions are no longer judged for this property); a fifth of the cases under a vetoing update validator; every key of the domain is looked up at the end; non-trivial = TTL<->no-TTL re-insert followed by a tick, or a TTL key re-used after clear(), or an update of a key that shares its expiry second with another key; distinct by case hash",
             nontrivial: |f| f.ttl_switch_then_tick > 0 || f.key_reused_after_clear > 0 || f.shared_bucket_updates > 0,
             assumptions: &["quiescent histories only (the property has no schedule quantifier)"],
             scenarios: vec![(1000, clear_reuse_scenario)],
@@ -138,6 +140,7 @@ pub fn ls_check(id: &str) -> Option<LsCheck> {
             profile: Profile {
                 name: "reclaim",
                 cap: Cap::Mixed,
+                validators: vec![Validator::Always, Validator::Always, Validator::Always, Validator::TagGe, Validator::TagEven],
                 modes: vec![Mode::Quiescent],
                 ttl_pct: 85,
                 periodic: true,
@@ -158,7 +161,7 @@ pub fn ls_check(id: &str) -> Option<LsCheck> {
             rule: "quiescent lock-step cases with a periodic cleanup (interval 100ms..3s, generated phase) fired on the virtual time line; non-trivial = something was reclaimed and (an update of a key sharing its expiry second with another, or interval > 1s, or a deadline within 1ms of a second boundary); distinct by case hash",
             nontrivial: |f| f.reclaimed > 0 && (f.shared_bucket_updates > 0 || f.long_tick_period || f.boundary_deadlines > 0),
             assumptions: &["'bounded delay' is checked as: gone after the first periodic tick at or after deadline + 1s"],
-            scenarios: vec![],
+            scenarios: vec![(500, sweep_race_scenario)],
         },
         "C06" => LsCheck {
             id: "C06",
@@ -180,7 +183,7 @@ pub fn ls_check(id: &str) -> Option<LsCheck> {
             rule: "schedule-mode lock-step cases (processor arms fire only where generated); non-trivial = a remove, update or clear() hit a key with work still buffered; distinct by case hash",
             nontrivial: |f| f.removes_inflight > 0 || f.updates_inflight > 0 || f.clears_with_pending > 0 || f.interposed_same_key > 0,
             assumptions: &["keys have distinct index hashes", "operations that returned Err void the case from that point (precondition of the property)"],
-            scenarios: vec![],
+            scenarios: vec![(500, sweep_race_scenario)],
         },
         "C07" => LsCheck {
             id: "C07",
@@ -228,7 +231,7 @@ pub fn ls_check(id: &str) -> Option<LsCheck> {
             rule: "lock-step cases with uniquely tagged values and a recording callback; non-trivial = >=1 eviction or rejection and >=1 update/remove of a key with work in flight; distinct by case hash",
             nontrivial: |f| (f.admissions_with_eviction + f.pop_rejections + f.dup_new_rejections + f.oversize_rejections) > 0 && (f.updates_inflight + f.removes_inflight) > 0,
             assumptions: &["get_mut writes are excluded (they overwrite a value in place)", "values accepted before a clear() may be dropped without callback, never reported twice"],
-            scenarios: vec![],
+            scenarios: vec![(500, sweep_race_scenario)],
         },
         "C09" => LsCheck {
             id: "C09",
@@ -387,6 +390,36 @@ pub fn ls_check(id: &str) -> Option<LsCheck> {
             nontrivial: |f| f.collide_ops_while_partner_resident > 0,
             assumptions: &["only what the property states: lookups/inserts/removes of one key never read, overwrite or remove the other's value (charge bookkeeping of colliding keys is not part of the property)"],
             scenarios: vec![],
+        },
+        "C20" => LsCheck {
+            id: "C20",
+            profile: Profile {
+                name: "any-config-workload",
+                cap: Cap::Mixed,
+                negative_max: true,
+                interpose: 8,
+                ttl_pct: 50,
+                periodic_pct: 30,
+                num_counters: vec![1, 2, 3, 5, 7, 8, 16, 33, 64, 70],
+                buffer_sizes: vec![1, 2, 3, 5, 8, 64],
+                buffer_items: vec![0, 1, 2, 3, 5, 64],
+                validators: vec![Validator::Always, Validator::Always, Validator::TagGe, Validator::Never],
+                getmut_write: true,
+                w: w(|w| {
+                    w.remove = 12;
+                    w.tick = 10;
+                    w.adv = 14;
+                    w.clear = 3;
+                    w.umc = 3;
+                }),
+                ..d
+            },
+            quick: 16_000,
+            thorough: 300_000,
+            rule: "lock-step cases over the small and odd builder parameters (num_counters 1..70, buffer_size 1.., buffer_items 0/1.., negative max_cost, both flags) with a workload of inserts, lookups, removes, TTL expiry, evictions and client operations interposed inside processor steps and cleanup sweeps: no panic in the caller or in a processor step; non-trivial = the workload reclaimed an expired entry or evicted one; distinct by case hash",
+            nontrivial: |f| f.reclaimed > 0 || f.admissions_with_eviction > 0,
+            assumptions: &["in this engine the background workers are stepped on the interpreter's thread, so a worker panic surfaces as a panic of the step"],
+            scenarios: vec![(800, sweep_race_scenario), (500, clear_reuse_scenario)],
         },
         _ => return None,
     })
